@@ -22,6 +22,7 @@ func c17define() c17prog {
 	opt.Bool("flag", false, opt.Alias("f"))
 	opt.String("str", "", opt.Alias("string"))
 	opt.String("choice", "", opt.ValidValues("apple", "apricot", "banana"))
+	opt.String("cho", "", opt.SuggestedValues("alpha", "avocado")) // its name is a strict prefix of "choice"
 	opt.Int("level", 0, opt.SuggestedValues("1", "10", "2"))
 	opt.String("define", "", opt.SuggestedValues("os=linux", "os=darwin", "arch=arm"))
 	opt.SetCommandFn(fn)
@@ -43,8 +44,8 @@ func c17define() c17prog {
 }
 
 // names available at each level reached by the earlier words
-var c17optsRoot = []string{"flag", "f", "str", "string", "choice", "level", "define", "help", "?"}
-var c17optsCmd = []string{"flag", "f", "str", "string", "choice", "level", "define", "help", "?", "cmdopt"}
+var c17optsRoot = []string{"flag", "f", "str", "string", "choice", "cho", "level", "define", "help", "?"}
+var c17optsCmd = []string{"flag", "f", "str", "string", "choice", "cho", "level", "define", "help", "?", "cmdopt"}
 var c17cmdsRoot = []string{"cmd", "wrap", "cmdother", "help"}
 var c17cmdsCmd = []string{"sub", "help", "alpha", "alps", "beta"}
 var c17cmdsSub = []string{"help"}
@@ -58,7 +59,7 @@ func VerifC17_Completion() {
 	vAssume(vMatches(w, `[^\t\n\f\r ]*`))
 	vAssume(!strings.Contains(w, "="))
 	vAssume(!strings.Contains(w, "\x00")) // cannot be put into a process environment
-	vAssume(w != "-") // the lone dash has a reading of its own
+	vAssume(w != "-")                     // the lone dash has a reading of its own
 	earlier := ""
 	opts, cmds := c17optsRoot, c17cmdsRoot
 	var prior []string
@@ -140,7 +141,7 @@ func VerifC17_Completion() {
 		tok := k
 		if strings.HasPrefix(w, "-") {
 			tok = "--" + k
-			if k == "str" || k == "string" || k == "choice" || k == "level" || k == "define" {
+			if k == "str" || k == "string" || k == "choice" || k == "cho" || k == "level" || k == "define" {
 				tok += "=1"
 				if k == "choice" {
 					tok = "--choice=apple"
